@@ -14,6 +14,7 @@ import (
 	"sort"
 	"strconv"
 	"strings"
+	"sync"
 	"sync/atomic"
 	"time"
 
@@ -155,7 +156,31 @@ func runSeed(base uint64, prop string, run int) uint64 {
 }
 
 // ExecRun executes one run of the profile. tape != nil replays.
+// runWatchdog aborts the process when a single run makes no progress in real time (a task spinning without
+// reaching a seam): infrastructure failure, never a violation.
+var runStarted atomic.Int64
+var watchdogOnce sync.Once
+
+func startRunWatchdog() {
+	watchdogOnce.Do(func() {
+		go func() {
+			for {
+				time.Sleep(5 * time.Second)
+				if t := runStarted.Load(); t != 0 && time.Since(time.Unix(0, t)) > time.Duration(envInt("VERIF_RUN_WATCHDOG_S", 150))*time.Second {
+					buf := make([]byte, 4<<20)
+					buf = buf[:runtime.Stack(buf, true)]
+					fmt.Fprintf(os.Stderr, "pdsim: WATCHDOG: a run made no progress for too long; goroutines:\n%s\n", buf)
+					os.Exit(2)
+				}
+			}
+		}()
+	})
+}
+
 func ExecRun(p *Profile, tier string, base uint64, run int, tape []uint32, trace bool) RunOut {
+	startRunWatchdog()
+	runStarted.Store(time.Now().UnixNano())
+	defer runStarted.Store(0)
 	sr := run
 	if p.SeedOf != nil {
 		sr = p.SeedOf(run)
